@@ -142,17 +142,25 @@ CLAIMS["C12"] = {
 }
 
 CLAIMS["C14"] = {
-    "technique": "bounded Kani harnesses on get_locale_from_path extracted verbatim (trait Locale reduced to get_all / as_str)",
-    "text": "Bounded, first sentence of the property only: for every path of up to 4 (quick) / 7 (thorough) characters "
+    "technique": "bounded stand-ins only: Kani harnesses on get_locale_from_path extracted verbatim (trait Locale reduced to get_all / as_str) + exhaustive native enumeration over a closed universe on match_path_segments / construct_path_segments / PathBuilder extracted verbatim (neither verifier reaches them)",
+    "text": "Bounded. First sentence: for every path of up to 4 (quick) / 7 (thorough) characters "
             "after the base path, over the characters of the locale names, `/` and one other letter, with locales en, "
             "en-US, fr listed in either order and base path \"\" or /a, get_locale_from_path returns the locale whose "
             "name is the whole first path segment after the base path, and none when that segment is not a locale name "
-            "(a name that is a prefix of another name or of an ordinary word is not matched).",
-    "note": "Bounded stand-in, not counted as proved. Not covered (no contract within reach: leptos_router types, signals, "
-            "labelled loops over &str splits): the rewriting of a URL on a locale switch (get_new_path, PathBuilder, "
-            "localize_path, match_path_segments / construct_path_segments), route generation, a base path that is not "
-            "followed by a segment boundary.",
-    "design_ref": "DESIGN.md section 8.12",
+            "(a name that is a prefix of another name or of an ordinary word is not matched). Second sentence, segment "
+            "level only: for every path of up to 3 (quick) / 4 (thorough) segments and every route of up to 3 / 5 "
+            "segments over every PathSegment variant (static, empty static, param, optional param, splat, unit), a path "
+            "that matches a route is rewritten against the same route to exactly its own segments in order (nothing "
+            "dropped, added or reordered), and rewritten to the route's localized form and back yields the original "
+            "segments.",
+    "note": "Both parts are bounded stand-ins, not counted as proved; the second is a native enumeration of the extracted "
+            "real code (Verus rejects labelled break/continue; CBMC did not finish a 2-segment x 2-route symbolic harness "
+            "in 280 s), every failure it reports is a concrete failing input. Shims: PathSegment = leptos_router 0.7.8's "
+            "definition copied, HashSet<usize> array-backed. Not covered: get_new_path (signals, Url, query string and "
+            "fragment), localize_path's split / find_map glue and the choice among several routes, the locale prefix "
+            "added by get_new_path, route generation (I18nNestedRoute), a base path that is not followed by a segment "
+            "boundary, longer paths / routes and other segment texts.",
+    "design_ref": "DESIGN.md sections 8.12, 8.22",
 }
 
 CLAIMS["C19"] = {
